@@ -500,7 +500,9 @@ def corpus():
 # ---------------------------------------------------------------------------
 # independent oracle: ownership ledger over the implementation's event stream
 
-_LINE = re.compile(r"^(\d+) (none|[a-z_]+ [a-z0-9_>&.\-]+ \d+) \| clr=(\d+) fm=(\d+) fd=(\d+) \| fin=([01-]+) \| done=(\S+)$")
+# an atomic operation with an explicit memory order is named `op[order]` by the harness; the oracle
+# reads it as the same operation (its judgement is about SC interleavings)
+_LINE = re.compile(r"^(\d+) (none|[a-z_]+(?:\[[a-z_]+\])? [a-z0-9_>&.\-]+ \d+) \| clr=(\d+) fm=(\d+) fd=(\d+) \| fin=([01-]+) \| done=(\S+)$")
 _START = re.compile(r"^ok \| clr=(\d+) fm=(\d+) fd=(\d+) \| fin=([01-]+) \| done=(\S+)$")
 _END = re.compile(r"^end (.*) \| clr=(\d+) fm=(\d+) fd=(\d+) \| fin=([01-]+)$")
 
@@ -685,7 +687,7 @@ def oracle(prop, script, c_lines):
 # supporting evidence (thorough tier): real threads under ThreadSanitizer
 
 
-def tsan_run(chk, iters=300):
+def tsan_build():
     import vlib
     d = vlib.mktmp("conc_tsan")
     exe = os.path.join(d, "conc_tsan")
@@ -694,10 +696,71 @@ def tsan_run(chk, iters=300):
            os.path.join(vlib.HARNESS, "conc_tsan.c"), os.path.join(vlib.REPO, "src", "memory.c"),
            "-o", exe, "-lpthread"]
     r = vlib.sh(cmd)
-    if r.returncode != 0:
-        chk.notes.append("TSan build failed: " + r.stdout[-400:])
+    return (exe, None) if r.returncode == 0 else (None, r.stdout[-400:])
+
+
+def tsan_scenarios():
+    return [s for _, s in selected_scenarios() + four_thread_scenarios()] + two_thread_scenarios(cleanup=True)[::23]
+
+
+def tsan_script(scn, iters):
+    return [("thr %s %s %s" % (sh or "-", wk or "-", " ".join(ops))).rstrip() for sh, wk, ops in scn] + ["run %d" % iters]
+
+
+def tsan_exec(exe, script, timeout=600):
+    """-> (stdout lines starting with 'run ', ThreadSanitizer report text)"""
+    p = subprocess.run([exe], input="\n".join(script) + "\n", stdout=subprocess.PIPE, stderr=subprocess.PIPE,
+                       universal_newlines=True,
+                       env=dict(os.environ, TSAN_OPTIONS="halt_on_error=0:exitcode=0:report_signal_unsafe=0"),
+                       timeout=timeout)
+    return [l for l in p.stdout.split("\n") if l.startswith("run ")], p.stderr, p.returncode
+
+
+def tsan_judge(script, lines, report):
+    """reading of C06 on a real-thread run: no data race reported inside the library,
+    the clear callback ran exactly once per iteration"""
+    iters = int(script[-1].split()[1])
+    if "WARNING: ThreadSanitizer" in report:
+        first = report[report.index("WARNING: ThreadSanitizer"):]
+        frames = re.findall(r"#\d+ (\S+) [^\n]*", first[:3000])
+        return ("ThreadSanitizer reports %d problem(s) on real threads; first: %s; frames: %s"
+                % (report.count("WARNING: ThreadSanitizer"), first.split("\n")[0].strip(), " <- ".join(frames[:6])))
+    if not lines:
+        return "the real-thread run produced no result line (crash?)"
+    if ("clears_ok=%d " % iters) not in lines[0]:
+        return "real threads: %s (the clear callback did not run exactly once in every iteration)" % lines[0]
+    return None
+
+
+def tsan_search(chk, iters=400):
+    """directed search on real threads (used when the atomic-step correspondence or a tie broke):
+    every scenario under ThreadSanitizer; a report is a concrete failing input"""
+    exe, err = tsan_build()
+    if exe is None:
+        chk.notes.append("TSan build failed: " + err)
         return
-    scns = [s for _, s in selected_scenarios() + four_thread_scenarios()] + two_thread_scenarios(cleanup=True)[::23]
+    n = 0
+    for scn in tsan_scenarios():
+        script = tsan_script(scn, iters)
+        try:
+            lines, report, _ = tsan_exec(exe, script)
+        except subprocess.TimeoutExpired:
+            lines, report = [], ""
+        n += 1
+        w = tsan_judge(script, lines, report)
+        if w and len(chk.oracle_failures) < 5:
+            chk.oracle_failures.append({"area": "conc_tsan", "script": script, "what": w,
+                                        "impl_output": lines + report[:4000].split("\n")})
+    chk.extra["directed_search_real_threads"] = {"scenarios": n, "iterations_each": iters}
+
+
+def tsan_run(chk, iters=300):
+    import vlib
+    exe, err = tsan_build()
+    if exe is None:
+        chk.notes.append("TSan build failed: " + err)
+        return
+    scns = tsan_scenarios()
     inp = ""
     for scn in scns:
         for sh, wk, ops in scn:
